@@ -299,7 +299,7 @@ def run(ctx):
             for T in ([4] if ctx.quick else [2, 4, 8]):
                 rounds = 2 if ctx.quick else 4
                 cmd = [h, "solve", str(T), str(rounds)] + paths
-                rc, out = vlib.sh(cmd, timeout=180)      # a corrupted heap can also hang: a timeout (rc -9) counts as a crash
+                rc, out = vlib.sh(cmd, timeout=90)       # a corrupted heap can also hang: a timeout (rc -9) counts as a crash
                 lines = [l.split() for l in out.split("\n") if l.startswith("inst ")]
                 crashed = rc != 0 or len(lines) != len(insts)
                 # every arithmetic instance touches the pool: FastRational(const char*) takes a cell for each parsed numeral
